@@ -386,6 +386,8 @@ impl<T: ArrayValue> Array<T> {
             return Ok(());
         }
 
+        validate_size::<T>(shape.iter().copied(), env)?;
+
         if shape.elements() == 0 {
             *self = Array::new(shape, []);
             return Ok(());
